@@ -488,7 +488,7 @@ class BaseModel(object):
 
     def _set_persisted(self, force=False):
         # ensure we don't modify to any values not affected by the last save/update
-        for v in [v for v in self._values.values() if v.changed or force]:
+        for v in [v for v in self._values.values() if v.changed or v.deleted or force]:
             v.reset_previous_value()
             v.explicit = False
         self._is_persisted = True
